@@ -270,6 +270,15 @@ def run_case(case, ctx):
         return
     kind, opts = case['kind'], case['opts']
     cls = dict(min=MinStepGenerator, max=MaxStepGenerator, c=CStepGenerator)[kind]
+    opts_lib, bs_arr = opts, None
+    if np.ndim(case['x']) >= 1 and isinstance(opts.get('base_step'), float) and not case.get('assign') \
+            and (case['n'] + case['order']) % 3 == 0:
+        # an array-valued base step (one per element of x), handed over as the caller's own ndarray
+        shp = np.shape(case['x'])
+        bs_arr = opts['base_step'] * (1.0 + (np.arange(int(np.prod(shp))).reshape(shp) % 4) / 8.0)
+        opts = dict(opts, base_step=bs_arr.copy())          # (the model's copy)
+        opts_lib = dict(opts, base_step=bs_arr.copy())      # (the caller's array, as the library gets it)
+        ctx.count('array_valued_base_step_cases')
     x = np.asarray(case['x'], dtype=float)
     x_lib = np.asarray(case['x'])            # integer dtype preserved, as Derivative.__call__ would pass it
     if x_lib.dtype.kind in 'iu':
@@ -289,7 +298,7 @@ def run_case(case, ctx):
             for k in assign['order']:
                 setattr(gen, k, opts[k])
         else:
-            gen = cls(**opts)
+            gen = cls(**opts_lib)
         hist = case.get('history')
         if hist:
             # the same generator instance has already produced sequences for other points / methods / n / orders (a
@@ -303,6 +312,9 @@ def run_case(case, ctx):
         got = list(gen(x_lib, method, n, order))
     except Exception as exc:
         ctx.reject('generator_raised', observed=repr(exc))
+        return
+    if bs_arr is not None and np.asarray(opts_lib['base_step']).tobytes() != bs_arr.tobytes():
+        ctx.reject('callers_base_step_array_modified', observed=np.ravel(opts_lib['base_step'])[:4], expected=np.ravel(bs_arr)[:4])
         return
     exp, ratio, exact_steps, expo, cnt = model(kind, opts, x, method, n, order)
     ctx.count('sequences_asserted')
